@@ -17,6 +17,8 @@ VERIF = os.path.dirname(os.path.dirname(os.path.abspath(__file__)))
 def main():
     wt, prop, src, dst = sys.argv[1:5]
     sd = os.path.join(wt, "_seed")
+    if not os.path.isdir(sd) and os.path.isdir(os.path.join(wt, "out_" + prop)):
+        sd = os.path.join(wt, "out_" + prop)          # round 3 deliverables directory
     backup = os.path.join(os.path.dirname(wt.rstrip("/")), "out", prop)     # verify_seed.sh removes <worktree>/_seed
     if os.path.isdir(sd) and not os.path.isdir(backup):
         os.makedirs(os.path.dirname(backup), exist_ok=True)
@@ -39,8 +41,8 @@ def main():
     shutil.copy(os.path.join(tmp, src + "_demo.py"), os.path.join(d, "demo.py"))
     notes = open(os.path.join(tmp, "notes.md")).read() if os.path.exists(os.path.join(tmp, "notes.md")) else ""
     head = subprocess.run(["git", "-C", wt, "rev-parse", "--short", "HEAD"], capture_output=True, text=True).stdout.strip()
-    json.dump({"property": prop, "label": dst, "round": 2, "base_commit": head,
-               "source": "independent sub-agent given only the property text and a scratch worktree (round 2: told which "
+    json.dump({"property": prop, "label": dst, "round": int(os.environ.get("SEED_ROUND", "2")), "base_commit": head,
+               "source": "independent sub-agent given only the property text and a scratch worktree (rounds 2 and 3: told which "
                          "functions earlier seeds had touched and asked to pick different ones)",
                "confirmed": {"applies_to_base_commit": True, "demo_exit_clean": int(m.group(1)),
                              "demo_exit_with_change": int(m.group(2)), "suite_with_change": m.group(3),
